@@ -46,7 +46,7 @@ const c18CorpusChunks = 8
 
 func c18Sweeps(tier string) int {
 	if tier == "thorough" {
-		return 3*c18CorpusChunks + 120
+		return 3*c18CorpusChunks + 60
 	}
 	return c18CorpusChunks
 }
@@ -88,7 +88,7 @@ func c18SweepList(tier string, seed uint64, i int) []c18Item {
 			}
 		}
 	} else {
-		nAtoms = 250
+		nAtoms = 150
 	}
 	c18AtomOnce.Do(func() {
 		for _, c := range allCats {
@@ -303,7 +303,7 @@ func c18FP(o *drive.Outcome) string {
 func init() {
 	h.Register(&h.Check{
 		ID: "C18", Level: "exploration", Race: true, Workers: 4, CPULimit: 900,
-		Rule: "SWEEP rounds: for every program of a list (one eighth of the 269-program corpus plus 40 stratified catalogue atoms, valid and invalid, in the default/XGo/bare configurations; thorough adds 120 rounds of 250 atoms) 4-8 goroutines build that SAME program in lock step, twice, each with its own importer and nothing synchronising them inside the build, so every package-level variable the program's code path writes is written by several goroutines at once; outcome fingerprint = bytes + type/constant/declaration disagreements with go/types. MIXED rounds: rounds of 2-12 goroutines (GOMAXPROCS 2/4/16), each building a DIFFERENT program with its own Package, Config, operand stack and importer instance (one importer per goroutine slot; std packages type-checked from source per importer), " +
+		Rule: "SWEEP rounds: for every program of a list (one eighth of the 269-program corpus plus 40 stratified catalogue atoms, valid and invalid, in the default/XGo/bare configurations; thorough adds 60 rounds of 150 atoms) 4-8 goroutines build that SAME program in lock step, twice, each with its own importer and nothing synchronising them inside the build, so every package-level variable the program's code path writes is written by several goroutines at once; outcome fingerprint = bytes + type/constant/declaration disagreements with go/types. MIXED rounds: rounds of 2-12 goroutines (GOMAXPROCS 2/4/16), each building a DIFFERENT program with its own Package, Config, operand stack and importer instance (one importer per goroutine slot; std packages type-checked from source per importer), " +
 			"runtime.Gosched() injected after seed-chosen builder operations (the real suspension points between builder calls); programs: extension-package libraries with overload families, generated single- and multi-file programs, corpus programs " +
 			"(enumerator loops, overloads, big-number literals, unsafe, generics), in the default, XGo-builtin and bare configurations. Oracles: (1) Go race detector — every report in the workers' race logs is a violation, de-duplicated by the pair of top frames; " +
 			"(2) each package's bytes under concurrent build equal its sequential build. non-trivial = round with at least one pair of overlapping builds (logical clock); distinct by round",
